@@ -197,7 +197,7 @@ class PercentEncoder(collections.defaultdict):
 
         if ((self.unix and char == b'/')
                 or (self.control and
-                    (0 <= char_num <= 31 or
+                    (0 <= char_num <= 31 or char_num == 127 or
                      self.ascii and 128 <= char_num <= 159))
                 or (self.windows and char in br'\|/:?"*<>')
                 or (self.ascii and char_num > 127)):
@@ -259,6 +259,16 @@ def safe_filename(filename, os_type='unix', no_control=True, ascii_only=True,
         encoder = _encoder_cache[encoder_args]
         encoded_filename = filename.encode(encoding)
         new_filename = encoder.quote(encoded_filename).decode(encoding)
+
+        if no_control and not ascii_only:
+            # The C1 control characters are multi-byte in most encodings and
+            # are escaped as characters rather than as bytes.
+            new_filename = re.sub(
+                '[\x80-\x9f]',
+                lambda match: ''.join(
+                    '%{:02X}'.format(byte)
+                    for byte in match.group(0).encode(encoding)),
+                new_filename)
 
     if os_type == 'windows':
         if new_filename[-1] in ' .':
